@@ -357,7 +357,7 @@ pub fn run(ctx: &Ctx) -> i32 {
     let seqs: Vec<Letter> = (0..24).map(|p| Letter::one(Line::Raw(format!("#SEQ {p}")))).collect();
     explore(ctx, "call sequences: 24 orders of the user-option combinations x (4 locations + a user file), each in a fresh process", Layered { slots: vec![seqs], bases: vec![("fresh process".to_string(), String::new())] }, C07, shared.clone());
     let bases = vec![("empty".to_string(), String::new()), ("EL grid".to_string(), "ELECTRICIDAD, RED, SUMINISTRO, A, 0.5, 2.0, 0.42\n".to_string())];
-    let depth = if ctx.quick() { 4 } else { 6 };
+    let depth = if ctx.quick() { 5 } else { 7 };
     explore(ctx, &format!("FACT: subsets of a 27-line menu, <= {depth} lines, from {{empty, EL grid}}"), Wide { alphabet: menu(), bases, max_add: depth, repeat: false }, C07, shared.clone());
     let locs: Vec<(String, String)> = subj::LOCS.iter().map(|l| (format!("loc:{l}"), format!("#LOC {l}\n"))).collect();
     explore(ctx, "four regulatory locations", Wide { alphabet: vec![], bases: locs, max_add: 0, repeat: false }, C07, shared.clone());
